@@ -41,9 +41,9 @@ def exec_op(net, a, shift):
     elif op == "drop_el":
         tb.drop_elements(net, t, [i + shift[t] for i in s])
     elif op == "reindex":
-        old = [i for i in net[t].index if i < 10]
-        tb.reindex_elements(net, t, new_indices=[i + 10 for i in old], old_indices=old)
-        shift[t] = 10
+        old = list(net[t].index)
+        tb.reindex_elements(net, t, new_indices=[i + 1 for i in old], old_indices=old)      # overlapping old / new indices
+        shift[t] = 1
     elif op == "drop_group":
         pp.drop_group(net, g)
     elif op == "set_oos":
